@@ -16,7 +16,7 @@ ENC = (P + "get_first_neighbor", P + "get_first_and_second_neighbor", P + "get_n
        "fim.graph.networkx_mixin.NetworkXMixin._drop_edges_not_of_type", "fim.graph.networkx_mixin.NetworkXMixin._get_first_neighbors_via",
        "fim.graph.networkx_mixin.NetworkXMixin._filter_nodes_by_label", "fim.graph.networkx_mixin.NetworkXMixin._find_node")
 N = 4
-IDS = ['n0', 'n1', 'n2', 'n3']
+IDS = ['n0', 'n1', 'n2', 'n3', 'n4']     # the fifth id is used by the 5-node path-with-hops shapes only
 ALL_EDGES = [(0, 1), (0, 2), (0, 3), (1, 2), (1, 3), (2, 3)]
 SHAPES = {
     'path': [(0, 1), (1, 2), (2, 3)],
@@ -56,10 +56,10 @@ def toks(ks):
     return [tok(k) for k in ks]
 
 
-def build(edges, cls, rels, disjoint=False):
+def build(edges, cls, rels, disjoint=False, n=N):
     """store with the graph under test ('g1') and a decoy graph 'g2' with the same node ids, other labels"""
     g = nx.Graph()
-    for i in range(N):
+    for i in range(n):
         g.add_node(100 + i, NodeID=IDS[i], Class=cls[i], Name='name%d' % i)
     for j, (a, b) in enumerate(edges):
         g.add_edge(100 + a, 100 + b, Class=rels[j])
@@ -75,8 +75,8 @@ def build(edges, cls, rels, disjoint=False):
     return cls_(graph_id='g1', importer=imp)
 
 
-def adj(edges, rels, rel=None):
-    out = {i: [] for i in range(N)}
+def adj(edges, rels, rel=None, n=N):
+    out = {i: [] for i in range(n)}
     for j, (a, b) in enumerate(edges):
         if rel is None or rels[j] == rel:
             out[a].append(b)
@@ -251,6 +251,39 @@ def _mk_hops(edges, disjoint=False):
         p = idx(got)
         return len(p) == best and p in cands
     return h_hops
+
+
+def _mk_hops5(edges):
+    """five nodes: the smallest size at which two chord-free paths of different length join the same end nodes"""
+    def h_hops5(a: int, z: int, h0: int, nh: int) -> bool:
+        """
+        pre: 0 <= a < 5 and 0 <= z < 5 and 0 <= h0 < 5 and 0 <= nh <= 1
+        post: R(_)
+        """
+        begin()
+        pg = build(edges, ['C'] * 5, ['r'] * len(edges), False, 5)
+        hops = [IDS[h0]][:nh]
+        got = pg.get_nodes_on_path_with_hops(node_a=IDS[a], node_z=IDS[z], hops=hops)
+        nbrs = adj(edges, None, None, 5)
+        cands = [p for p in simple_paths(a, z, nbrs) if induced_acyclic(p, edges) and all(IDS.index(h) in p for h in hops)]
+        if not cands:
+            return got == []
+        best = min(len(p) for p in cands)
+        p = idx(got)
+        return len(p) == best and p in cands
+    return h_hops5
+
+
+# a 5-cycle (two chord-free routes of 3 and 4 nodes between n0 and n2) with the long route first / last in link creation order,
+# and the same with a pendant-free chord-less 'house' variant
+SHAPES5 = {
+    'c5_long_first': [(0, 3), (3, 4), (4, 2), (0, 1), (1, 2)],
+    'c5_short_first': [(0, 1), (1, 2), (0, 3), (3, 4), (4, 2)],
+    'theta_long_first': [(0, 3), (3, 4), (4, 2), (0, 1), (1, 2), (1, 4)],
+}
+for _n5, _e5 in SHAPES5.items():
+    add("path_with_hops5/" + _n5, _mk_hops5(_e5), timeout=600, encodes=ENC,
+        bounds="5-node shape %s %s: end nodes and 0..1 hop symbolic indices; shortest among the chord-free paths containing the hop" % (_n5, _e5))
 
 
 def _register(name, edges, tiers):
